@@ -20,6 +20,8 @@
 EXTENDS Naturals, Sequences, FiniteSets, TLC
 
 CONSTANTS MaxLen,         \* every string over Alphabet up to this length is a case
+          TailLen,        \* ... and every string  k = t  with t over Alphabet up to this length (every grammar-valid
+                          \*     header starts with a key; this reaches valid headers two characters longer)
           Alphabet,
           FamilyDepth     \* 0: no structured family; 1: one/two elements; 2: also three elements
 
@@ -81,18 +83,22 @@ PairOf(v) == <<"k", "=">> \o v
 E1 == {PairOf(v) : v \in ValsA}
 E2 == {PairOf(a) \o <<";">> \o PairOf(b) : a \in ValsB, b \in ValsB}
 Elems == E1 \cup E2
+E3 == {PairOf(<<"v">>), PairOf(<<"q", "v", ",", "v", "q">>), PairOf(<<"q", "b", "q", "q">>)}
 Family == IF FamilyDepth = 0 THEN {}
           ELSE Elems \cup {a \o <<",">> \o b : a \in Elems, b \in Elems}
+               \cup {a \o <<",">> \o b \o <<",">> \o c : a \in E3, b \in E3, c \in E3}    \* first / middle / last differ
                \cup (IF FamilyDepth >= 2 THEN {a \o <<",">> \o b \o <<",">> \o c : a \in E1, b \in E2, c \in E1} ELSE {})
 
-Cases == {[k |-> "absent", s |-> <<>>]} \cup {[k |-> "str", s |-> s] : s \in StrUpTo(MaxLen) \cup Family}
+KeyedTails == {<<"k", "=">> \o t : t \in StrUpTo(TailLen)}
+Cases == {[k |-> "absent", s |-> <<>>]} \cup {[k |-> "str", s |-> s] : s \in StrUpTo(MaxLen) \cup KeyedTails \cup Family}
 
 OnlyCommas(s) == Len(s) >= 1 /\ \A i \in 1..Len(s) : s[i] = ","
-Class(c) == IF c.k = "absent" THEN "absent"
-            ELSE IF c.s = <<>> THEN "emptystr"
-            ELSE IF OnlyCommas(c.s) THEN "noelem"
-            ELSE IF Parse(c.s).ok THEN "valid" ELSE "invalid"
-Expected(c) == [cls |-> Class(c), elems |-> IF Class(c) = "valid" THEN Parse(c.s).elems ELSE <<>>]
+ClassP(c, P) == IF c.k = "absent" THEN "absent"
+                ELSE IF c.s = <<>> THEN "emptystr"
+                ELSE IF OnlyCommas(c.s) THEN "noelem"
+                ELSE IF P.ok THEN "valid" ELSE "invalid"
+Class(c) == ClassP(c, Parse(c.s))
+Expected(c) == LET P == Parse(c.s) IN [cls |-> ClassP(c, P), elems |-> P.elems]
 
 \* ------------------------------------------------------------------ table sanity: an independent reading of quoting
 RECURSIVE QState(_, _)        \* lexical state just before position i, by quote parity with escapes
@@ -109,24 +115,26 @@ ValPos(p) == {p.val[j] : j \in {x \in 1..Len(p.val) : IsPos(p.val[x])}}
 KeyPos(p) == {ToString(i) : i \in p.kpos..(p.kpos + p.klen - 1)}
 ElemPos(e) == UNION {ValPos(e[j]) \cup KeyPos(e[j]) : j \in 1..Len(e)}
 
+\* (each invariant parses once: P == Parse(c.s))
 \* elements are separated exactly by the commas outside quotes, pairs by the semicolons outside quotes
-ElemsAreTopLevelCommas(c) == Valid(c) => Len(Parse(c.s).elems) = Cardinality(Top(c.s, ",")) + 1
-PairsAreTopLevelSemis(c)  == Valid(c) => NPairs(Parse(c.s).elems) = Cardinality(Top(c.s, ",")) + Cardinality(Top(c.s, ";")) + 1
+ElemsAreTopLevelCommas(c) == c.k = "str" => LET P == Parse(c.s) IN P.ok => Len(P.elems) = Cardinality(Top(c.s, ",")) + 1
+PairsAreTopLevelSemis(c)  == c.k = "str" => LET P == Parse(c.s) IN
+                             P.ok => NPairs(P.elems) = Cardinality(Top(c.s, ",")) + Cardinality(Top(c.s, ";")) + 1
 \* no letter is lost, none is attributed to two elements
-EveryLetterOnce(c) == Valid(c) =>
-    LET es == Parse(c.s).elems IN
+EveryLetterOnce(c) == c.k = "str" => LET P == Parse(c.s)  es == P.elems IN P.ok =>
       /\ UNION {ElemPos(es[j]) : j \in 1..Len(es)} = {ToString(i) : i \in {x \in 1..Len(c.s) : Letter(c.s[x])}}
       /\ \A a, b \in 1..Len(es) : a # b => ElemPos(es[a]) \cap ElemPos(es[b]) = {}
-NonEmptyElems(c) == Valid(c) => (Len(Parse(c.s).elems) >= 1 /\ \A j \in 1..Len(Parse(c.s).elems) : Len(Parse(c.s).elems[j]) >= 1)
+NonEmptyElems(c) == c.k = "str" => LET P == Parse(c.s)  es == P.elems IN
+                    P.ok => (Len(es) >= 1 /\ \A j \in 1..Len(es) : Len(es[j]) >= 1)
 \* a quote never appears in a reported value unless it was escaped
-QuotesOnlyEscaped(c) == Valid(c) =>
-    \A j \in 1..Len(Parse(c.s).elems) : \A p \in 1..Len(Parse(c.s).elems[j]) :
-        Cardinality({x \in 1..Len(Parse(c.s).elems[j][p].val) : Parse(c.s).elems[j][p].val[x] = "q"})
+QuotesOnlyEscaped(c) == c.k = "str" => LET P == Parse(c.s)  es == P.elems IN P.ok =>
+    \A j \in 1..Len(es) : \A p \in 1..Len(es[j]) :
+        Cardinality({x \in 1..Len(es[j][p].val) : es[j][p].val[x] = "q"})
           <= Cardinality({i \in 1..Len(c.s) : c.s[i] = "q" /\ QState(c.s, i) = "esc"})
 
 \* ------------------------------------------------------------------ judging what the real code did
-(* observation o (one per header value x select_element):
-     sel     "first" | "last"
+(* observation o (one per concrete header value):  [names, first, last]; first/last = [vout, el, dout, df] observed
+   with select_element = "first" / "last"
      names   sequence as long as the header: names[i] = the key name the driver wrote for the key starting at i
              ("subject" "uri" "hash" "by" "cert" "dns"; "" elsewhere) -- a key longer than one letter is an unknown key
      vout    outcome of the authenticator built with validate=<capture>:  "ok" | AuthFailure reason | "raised:<Type>"
@@ -151,29 +159,35 @@ FieldOK(e, n, f, o) == LET vs == Vals(e, n, o) IN
 Range(q) == {q[j] : j \in 1..Len(q)}
 PosIn(v) == {v[j] : j \in {x \in 1..Len(v) : IsPos(v[x])}}
 
-Selected(c, o) == LET es == Parse(c.s).elems IN IF o.sel = "first" THEN es[1] ELSE es[Len(es)]
 FieldPos(f) == IF f = <<>> THEN {} ELSE PosIn(f[1])
 DnsPos(d) == UNION {PosIn(d[j]) : j \in 1..Len(d)}
 
-Conforms(c, o) ==
-  LET cls == Class(c) IN
+\* one select_element value: r = [vout, dout, el, df], o carries the key names
+One(c, P, cls, o, r, sel) ==
   IF cls = "absent" THEN
-         Bad("MissingIsProxyRequired", o.vout = "proxy_required" /\ o.dout = "proxy_required")
+         Bad("MissingIsProxyRequired", r.vout = "proxy_required" /\ r.dout = "proxy_required")
   ELSE IF cls = "emptystr" THEN      \* "" : the statement does not say whether that is "missing" or "empty"
-         Bad("EmptyIsRejected", o.vout \in {"proxy_required", "invalid_credential"} /\ o.dout \in {"proxy_required", "invalid_credential"})
+         Bad("EmptyIsRejected", r.vout \in {"proxy_required", "invalid_credential"} /\ r.dout \in {"proxy_required", "invalid_credential"})
   ELSE IF cls = "noelem" THEN        \* present, but no element at all
-         Bad("EmptyIsInvalidCredential", o.vout = "invalid_credential" /\ o.dout = "invalid_credential")
+         Bad("EmptyIsInvalidCredential", r.vout = "invalid_credential" /\ r.dout = "invalid_credential")
   ELSE IF cls = "valid" THEN
-    LET e == Selected(c, o)
+    LET e == IF sel = "first" THEN P.elems[1] ELSE P.elems[Len(P.elems)]
         mine == ElemPos(e)
-        seenV == UNION {FieldPos(o.el[n]) : n \in Single} \cup DnsPos(o.el.dns)
-        seenD == UNION {FieldPos(o.df[n]) : n \in Single \ {"cert"}} \cup DnsPos(o.df.dns) \cup PosIn(o.df.principal)
-    IN   Bad("ValidAccepted",            o.vout = "ok" /\ o.dout = "ok")
-    \cup Bad("OnlyFromSelectedElement",  (o.vout = "ok" => seenV \subseteq mine) /\ (o.dout = "ok" => seenD \subseteq mine))
-    \cup Bad("FieldsOfSelectedElement",  o.vout = "ok" => /\ \A n \in Single : FieldOK(e, n, o.el[n], o)
-                                                          /\ o.el.dns = DnsSeq(e, o))
-    \cup Bad("ClaimsOfSelectedElement",  o.dout = "ok" => /\ \A n \in Single \ {"cert"} : FieldOK(e, n, o.df[n], o)
-                                                          /\ (o.df.dns = DnsSeq(e, o) \/ (o.df.dns = <<>> /\ DnsSeq(e, o) = <<>>)))
-    \cup Bad("PrincipalFromSubject",     o.dout = "ok" => PosIn(o.df.principal) \subseteq UNION {PosIn(v) : v \in Vals(e, "subject", o)})
+        seenV == UNION {FieldPos(r.el[n]) : n \in Single} \cup DnsPos(r.el.dns)
+        seenD == UNION {FieldPos(r.df[n]) : n \in Single \ {"cert"}} \cup DnsPos(r.df.dns) \cup PosIn(r.df.principal)
+    IN   Bad("ValidAccepted",            r.vout = "ok" /\ r.dout = "ok")
+    \cup Bad("OnlyFromSelectedElement",  (r.vout = "ok" => seenV \subseteq mine) /\ (r.dout = "ok" => seenD \subseteq mine))
+    \cup Bad("FieldsOfSelectedElement",  r.vout = "ok" => /\ \A n \in Single : FieldOK(e, n, r.el[n], o)
+                                                          /\ r.el.dns = DnsSeq(e, o))
+    \cup Bad("ClaimsOfSelectedElement",  r.dout = "ok" => /\ \A n \in Single \ {"cert"} : FieldOK(e, n, r.df[n], o)
+                                                          /\ (r.df.dns = DnsSeq(e, o) \/ (r.df.dns = <<>> /\ DnsSeq(e, o) = <<>>)))
+    \cup Bad("PrincipalFromSubject",     r.dout = "ok" => PosIn(r.df.principal) \subseteq UNION {PosIn(v) : v \in Vals(e, "subject", o)})
   ELSE {}        \* "invalid": only "never raises anything but AuthFailure", decided by the driver
+
+\* o = [names, first, last]; a failed clause is reported as "<clause>@first" / "<clause>@last"
+Conforms(c, o) ==
+  LET P == Parse(c.s)
+      cls == ClassP(c, P) IN
+       {x \o "@first" : x \in One(c, P, cls, o, o.first, "first")}
+  \cup {x \o "@last"  : x \in One(c, P, cls, o, o.last, "last")}
 =====================================================================================
